@@ -174,7 +174,8 @@ Eval(n, env) ==
          ELSE IF c.k = "bool" /\ c.b = Zero THEN Panic("assert")
          ELSE Unk("symbolic assert")
     [] n.op = "seq" -> LET v == Eval(n.e, env) IN
-         IF v.k = "panic" THEN v ELSE IF n.body.op = "unit" THEN v ELSE Eval(n.body, env)
+         IF IsBad(v) THEN v          \* an unknown statement may have effects: the whole body is undecided
+         ELSE IF n.body.op = "unit" THEN v ELSE Eval(n.body, env)
     [] n.op = "mk" -> LET v == Eval(n.e, env) IN IF IsBad(v) THEN v ELSE IF v.k = "bv" /\ ~v.arb THEN Obj(v) ELSE Unk("struct literal of non-integer")
     [] n.op = "assign" -> LET v == Eval(n.e, env) IN IF IsBad(v) THEN v ELSE IF v.k = "bv" /\ ~v.arb THEN Obj(v) ELSE Unk("assignment of non-integer")
     [] n.op = "call" ->
@@ -199,6 +200,13 @@ Eval(n, env) ==
                       ELSE IF \E i \in bits..(src.w - 1) : src.b[i] = One THEN Panic("uN::new: value out of range")
                       ELSE IF \E i \in bits..(src.w - 1) : src.b[i] # Zero THEN Unk("uN::new of a possibly large value")
                       ELSE BV(bits, FALSE, TRUE, LAMBDA i : IF i < src.w THEN src.b[i] ELSE Zero)
+            ELSE IF f = "new_with_raw_value" /\ Len(a) = 1 /\ "$self" \in DOMAIN env /\ ty \in {"Self", env["$self"].name}
+                 THEN LET sw == env["$self"].s
+                          src == IF a[1].k = "n" THEN Cast(a[1], "u128") ELSE a[1] IN
+                      IF src.k # "bv" THEN Unk("new_with_raw_value operand")
+                      ELSE Obj(BV(sw, FALSE, FALSE, LAMBDA i : IF i < src.w THEN src.b[i] ELSE Zero))
+            ELSE IF Len(n.path) = 1 /\ "$self" \in DOMAIN env /\ f = ("Partial" \o env["$self"].name) /\ Len(a) = 1
+                 THEN [k |-> "partial", obj |-> a[1]]
             ELSE IF f = "new_with_raw_value" /\ Len(a) = 1 /\ a[1].k = "bv" THEN Cust(ty, a[1])
             ELSE Unk("call " \o f)
     [] n.op = "mcall" ->
@@ -207,7 +215,31 @@ Eval(n, env) ==
          ELSE IF n.name = "value" /\ r.k = "bv" /\ r.arb
               THEN BV(StorageOf(r.w), FALSE, FALSE, LAMBDA i : IF i < r.w THEN r.b[i] ELSE Zero)
          ELSE IF n.name = "raw_value" /\ r.k = "custin" THEN r.raw
+         (* a call of another generated accessor of the same struct (builder steps call with_<f>): evaluate ITS recorded body *)
+         ELSE IF r.k = "obj" /\ "$fns" \in DOMAIN env /\ n.name \in DOMAIN env["$fns"]
+              THEN LET callee == env["$fns"][n.name]
+                       a == EvalArgs(n.args, env)
+                       bad == {j \in 1..Len(a) : IsBad(a[j])}
+                   IN IF bad # {} THEN a[CHOOSE j \in bad : TRUE]
+                      ELSE IF Len(a) = 1
+                           THEN Eval(callee.body, [x \in {"self.raw_value", "field_value", "$fns"} |->
+                                                     IF x = "self.raw_value" THEN r.raw ELSE IF x = "field_value" THEN a[1] ELSE env["$fns"]])
+                      ELSE IF Len(a) = 2
+                           THEN Eval(callee.body, [x \in {"self.raw_value", "index", "field_value", "$fns"} |->
+                                                     IF x = "self.raw_value" THEN r.raw ELSE IF x = "index" THEN a[1]
+                                                     ELSE IF x = "field_value" THEN a[2] ELSE env["$fns"]])
+                      ELSE Unk("arity of " \o n.name)
          ELSE Unk("method " \o n.name)
+    [] n.op = "self0" -> IF "self.0" \in DOMAIN env THEN env["self.0"] ELSE Unk("self.0")
+    [] n.op = "index" ->
+         LET a == Eval(n.a, env)  i == Eval(n.i, env) IN
+         IF IsBad(a) \/ IsBad(i) THEN Bad2(a, i)
+         ELSE IF a.k = "arr" /\ i.k = "n" THEN (IF i.n < Len(a.elems) THEN a.elems[i.n + 1] ELSE Panic("index out of bounds"))
+         ELSE Unk("indexing")
+    [] n.op = "path" ->
+         IF Last(n.segs) = "DEFAULT" /\ "$default" \in DOMAIN env THEN env["$default"]
+         ELSE IF Last(n.segs) = "ZERO" /\ "$zero" \in DOMAIN env THEN env["$zero"]
+         ELSE Unk("path")
     [] OTHER -> Unk("IR node " \o n.op)
 
 ---------------------------------------------------------------------------
@@ -267,9 +299,49 @@ Judge(d, o) ==
        ELSE IF r.raw = exp THEN [res |-> "ok", why |-> ""]
        ELSE [res |-> "mismatch", why |-> "setter", detail |-> Describe(exp, r.raw)]
 
+---------------------------------------------------------------------------
+(* C13 for all argument tuples: the recorded builder chain -- builder(), each with_<f> step in declaration order (each of
+   which calls recorded with_<f> accessors), build() -- evaluated symbolically; the result must be the fold of Write over
+   the writable fields from DEFAULT / zero, with argument element i at Pos(f, i). *)
+ArgLit(k, i, f) == LET nm == "a" \o ToString(k) \o "e" \o ToString(i) IN
+                   IF IsCustom(f) THEN [k |-> "custin", raw |-> Shape(f, LAMBDA b : Lit(nm, b))] ELSE Shape(f, LAMBDA b : Lit(nm, b))
+ArgOf(k, f) == IF IsArray(f) THEN [k |-> "arr", elems |-> [i \in 1..Count(f) |-> ArgLit(k, i - 1, f)]] ELSE ArgLit(k, 0, f)
+(* the expected raw value, built by folding the symbolic Write over (writable field k, element i) pairs *)
+SymWrite(prev, p, k, i, w) == [b \in 0..(w - 1) |->
+                                 IF \E m \in 1..Len(p) : p[m] = b
+                                 THEN Lit("a" \o ToString(k) \o "e" \o ToString(i), (CHOOSE m \in 1..Len(p) : p[m] = b) - 1)
+                                 ELSE prev[b]]
+RECURSIVE FoldElemsSym(_, _, _, _, _)
+FoldElemsSym(prev, f, k, i, w) == IF i >= Count(f) THEN prev ELSE FoldElemsSym(SymWrite(prev, Pos(f, i), k, i, w), f, k, i + 1, w)
+RECURSIVE FoldFieldsSym(_, _, _)
+FoldFieldsSym(prev, d, k) == IF k > Len(WritableIdx(d)) THEN prev
+                             ELSE FoldFieldsSym(FoldElemsSym(prev, d.fields[WritableIdx(d)[k]], k, 0, d.s), d, k + 1)
+BuildExpected(d) == [k |-> "bv", w |-> d.s, sg |-> FALSE, arb |-> FALSE,
+                     b |-> FoldFieldsSym([b \in 0..(d.s - 1) |-> IF b \in InitialValue(d) THEN One ELSE Zero], d, 1)]
+ConstObj(d, bits) == Obj(BV(d.s, FALSE, FALSE, LAMBDA i : IF i \in bits THEN One ELSE Zero))
+RECURSIVE RunSteps(_, _, _, _, _)
+RunSteps(d, o, cur, k, base) ==
+  IF k > Len(o.steps) THEN cur
+  ELSE IF cur.k # "partial" THEN (IF IsBad(cur) THEN cur ELSE Unk("builder state"))
+  ELSE RunSteps(d, o, Eval(o.steps[k], ("self.0" :> cur.obj) @@ ("value" :> ArgOf(k, d.fields[WritableIdx(d)[k]])) @@ base), k + 1, base)
+JudgeBuild(d, o) ==
+  LET base == [x \in {"$fns", "$self", "$default", "$zero"} |->
+                 IF x = "$fns" THEN o.fns ELSE IF x = "$self" THEN d
+                 ELSE IF x = "$default" THEN ConstObj(d, InitialValue(d)) ELSE ConstObj(d, {})]
+      start == Eval(o.builder, base)
+      endst == RunSteps(d, o, start, 1, base)
+      r == IF endst.k = "partial" THEN Eval(o.build, ("self.0" :> endst.obj) @@ base) ELSE endst
+  IN IF Len(o.steps) # Len(WritableIdx(d)) THEN [res |-> "undecided", why |-> "number of builder steps"]
+     ELSE IF r.k = "unk" THEN [res |-> "undecided", why |-> r.why]
+     ELSE IF r.k = "panic" THEN [res |-> "overflow", why |-> r.why]
+     ELSE IF r.k # "obj" THEN [res |-> "undecided", why |-> "build() does not produce the struct"]
+     ELSE IF HasTop(r.raw) THEN [res |-> "undecided", why |-> "TOP"]
+     ELSE IF r.raw = BuildExpected(d) THEN [res |-> "ok", why |-> ""]
+     ELSE [res |-> "mismatch", why |-> "builder", detail |-> Describe(BuildExpected(d), r.raw)]
+
 Decls == JsonDeserialize(IOEnv.DECLFILE)
 Obls  == JsonDeserialize(IOEnv.OBLFILE)
-Report(j) == LET o == Obls[j]  v == Judge(Decls[o.decl + 1], o) IN
+Report(j) == LET o == Obls[j]  v == IF o.op = "build" THEN JudgeBuild(Decls[o.decl + 1], o) ELSE Judge(Decls[o.decl + 1], o) IN
              IF v.res = "ok" THEN TRUE
              ELSE PrintT(<<"SYM", ToJson([j |-> j, decl |-> o.decl, field |-> o.field, op |-> o.op, idx |-> o.idx, verdict |-> v])>>)
 (* the obligations are evaluated inside the next-state relation, i.e. by a TLC worker thread whose stack size is set by -Xss
